@@ -3,7 +3,13 @@ import CruxVerif.Props.C20
 #print axioms Props.C20.variant_declaration_order
 #print axioms Props.C20.perm_invariant_partial
 #print axioms Props.C20.perm_invariant_full_false
+#print axioms Props.C20.perm_invariant_registry
 #print axioms Props.C20.renumber_invariant_fmt
+#print axioms Props.C20.renumber_invariant
+#print axioms Props.C20.crate_order_invariant
+#print axioms Props.C20.load_is_a_run
+#print axioms Props.C20.perm_invariant_pipeline
+#print axioms Props.C20.sameAvail_of_permuted
 #print axioms Props.C20.closed_partial
 #print axioms Props.C20.closed_full_false
 #print axioms Props.C20.C20_structure_sound
